@@ -405,7 +405,8 @@ impl ToOrdinal {
             } else {
                 definitions.get_vec("NumbersOrdinalFractionalOnes")?
             };
-            let number_as_int: usize = number.parse().unwrap(); // already verified it is only digits
+            // already verified it is only digits, but there can be more of them than fit into a usize (such a number is not irregular)
+            let number_as_int: usize = number.parse().unwrap_or(usize::MAX);
             if number_as_int < words.len() {
                 // use the words associated with this irregular pattern.
                 return Some( words[number_as_int].clone() );
